@@ -19,6 +19,8 @@ CHECKS = {
     ),
 }
 
+EXTRA = " Real pytest sessions over further layout, environment and invocation dimensions (import-block layouts, several files, locales, other start directories, monorepo configuration, byte-code caches, ways a session ends, collection-time snapshots) were added after the seeded rounds: DESIGN.md section 4.1 lists them per property; the evidence file counts what each run observed of them."
+
 NOT_BUILT_REASON = "check not built yet in this round (work in progress; see DESIGN.md section 4 for the planned monitor)"
 
 
@@ -38,7 +40,7 @@ def main():
                 "evidence_file": f"/verif/evidence/{pid}.json",
                 "replay_cmd_template": f"/venv/bin/python check.py {pid} --replay {{path}}",
                 "engine": "ismon",
-                "level_claimed": {"category": c["level"], "text": c["text"], "design_ref": c["ref"]},
+                "level_claimed": {"category": c["level"], "text": c["text"] + EXTRA, "design_ref": c["ref"]},
                 "level_note": c["note"],
                 "technique": c["technique"],
             }
